@@ -28,8 +28,9 @@ def run(c):
     logf, res, cached = mx.produce(c, binhash)
     c.judge(dict(fails=[tuple(x) for x in res["fails"]]), logf)
     st = res["stats"]
-    mx.need(st, ["ownForeign", "ownSignerKeyed", "ownOwnerOk", "privGuarded", "privAccepted", "privElsewhere", "killRejected", "killAccepted"])
-    mx.need_eq(st, [("ownRowsWitnessed", "ownRows"), ("variantsWitnessed", "variants")])
+    if not c.violations:   # a violation on real-code states stands on its own; vacuity only matters for a clean result
+        mx.need(st, ["ownForeign", "ownSignerKeyed", "ownOwnerOk", "privGuarded", "privAccepted", "privElsewhere", "killRejected", "killAccepted"])
+        mx.need_eq(st, [("ownRowsWitnessed", "ownRows"), ("variantsWitnessed", "variants")])
     c.samples = mx.samples(logf, ("Own", "Priv", "Kill"))
     return c.finish("model_checking", dict(
         states=res["mc"]["distinct"], transitions=res["mc"]["generated"], traces_validated_against_impl=st["nodes"],
